@@ -435,9 +435,22 @@ def curves(ctx, r, n_hist):
     from barril.units import Array, FixedArray
 
     def arr(n, u):
+        import numpy as np
+
         kind = r.choice(KINDS[:3])
-        if n >= 2 and r.random() < 0.25:
+        k = r.random()
+        if n >= 2 and k < 0.2:
             return FixedArray(n, cont(vals_for(r, n, kind), kind), u)
+        if k < 0.4:
+            # nested containers: the length of an Array is its number of items (points), not of numbers
+            w = r.choice([1, 2, 3])
+            rows = [tuple(vals_for(r, w, kind)) for _ in range(n)]
+            nested = r.choice(["list-of-tuples", "tuple-of-tuples", "2-D ndarray"])
+            if nested == "list-of-tuples":
+                return Array(rows, u)
+            if nested == "tuple-of-tuples":
+                return Array(tuple(rows), u)
+            return Array(np.array(rows, dtype=float).reshape(n, w), u)
         return Array(cont(vals_for(r, n, kind), kind), u)
 
     for _ in range(n_hist):
@@ -527,7 +540,7 @@ def run(ctx):
         "non-trivial = a mismatching attempt, or an accepted one whose result is re-checked by the size monitor" % len(ROUTES)
     )
     ctx.assumptions = [
-        "one-dimensional containers; dimensions are ints",
+        "FixedArray values are one-dimensional containers, dimensions are ints; Curve images/domains also use nested containers (list/tuple of tuples, 2-D ndarray): length = number of items",
         "conversion reference is UnitDatabase's own float conversion (C01/C02 vouch for it)",
         "a refused attempt must raise ValueError where the statement says so (size mismatch); an out-of-range index may raise anything but must not return",
     ]
